@@ -27,6 +27,10 @@ def tname(tid, ae):
 def ser_e(e, out):
     if e[0] == "U":
         out.append("U")
+    elif e[0] == "JN":
+        out.append("JN"); ser_e(e[1], out); out.append(str(len(e[2])))
+        for a in e[2]:
+            ser_e(a, out)
     elif e[0] == "C":
         out.append("C"); ser_e(e[1], out); ser_e(e[2], out)
     elif e[0] == "F":
@@ -140,6 +144,8 @@ def pr_e(e):
     k = e[0]
     if k == "U":
         return "super()"
+    if k == "JN":
+        return "([" + ", ".join(pr_e(a) for a in e[2]) + "]|join(" + pr_e(e[1]) + "))"
     if k == "C":
         return f"({pr_e(e[1])} ~ {pr_e(e[2])})"
     if k == "F":
@@ -243,6 +249,8 @@ def sanitize(ss, in_macro=False):
         k = e[0]
         if k == "U":
             return ("L", "s") if in_macro else e
+        if k == "JN":
+            return ("JN", fe(e[1]), [fe(a) for a in e[2]])
         if k == "C":
             return ("C", fe(e[1]), fe(e[2]))
         if k == "F":
@@ -303,6 +311,11 @@ class SGen(L.LGen):
         if self.in_block and self.has_super and self.r.random() < 0.15:
             self.count("super")
             return ("U",)
+        if d > 0 and self.r.random() < 0.12:
+            # join over a heterogeneous list: plain data, literals, set-block variables, macro results in any order
+            self.count("join")
+            return ("JN", self.expr(sc, 0) if self.r.random() < 0.7 else ("L", self.r.choice([", ", "", "-", "<br>", "&"])),
+                    [self.expr(sc, d - 1) for _ in range(self.r.randint(0, 4))])
         return super().expr(sc, d)
 
     def sub_template(self, macros_only=False):
